@@ -51,6 +51,10 @@ def conforming_policy(rng):
     return p
 
 
+def _nest(depth):
+    return reqgen.nest_bytes(depth)
+
+
 def hostile_requests(rng):
     P = "m/44'/0'/0'/0/0"
     yield {"command": [], "version": 5}
@@ -101,6 +105,8 @@ def hostile_requests(rng):
         reqgen.rlp_enc([b"\x01"] * 18 + [b"\x02" * 10]).hex(),                   # coinbase too short
         reqgen.rlp_enc([[b"\x01"]] * 19).hex(),
         reqgen.rlp_enc([b"\x01"] * 16 + [g.rand_bytes(rng, 70000)] + [b"\x02"] * 2 + [g.rand_bytes(rng, 100)]).hex(),
+        reqgen.rlp_enc([b"\x01"] * 16 + [_nest(400)] + [b"\x02" * 80, b"", g.rand_bytes(rng, 100)]).hex(),   # deep field
+        reqgen.rlp_enc([b"\x01"] * 16 + [_nest(600)]).hex(), reqgen.rlp_enc([b"\x01"] * 16 + [_nest(3000)]).hex(),
         hdr.hex() + "00", hdr.hex()[:-2], "f9ffff" + "00" * 10, "b90001aa", "8100", "zz", "", " ", "0x" + hdr.hex(),
     ]
     for wb in weird:
